@@ -389,6 +389,7 @@ RECV_TYPES = {
     ('*', 'self._processor.ftp_client'): ['wpull.protocol.ftp.client:Client'],
     ('*', 'self._processor.ftp_client.session()'): ['wpull.protocol.ftp.client:Session'],
     ('*', 'self._item_session.app_session.factory'): ['ext:dict'],
+    ('wpull.processor.ftp:FTPProcessorSession._make_symlink', 'path_namer'): ['ext:local'],   # PathNamer.safe_filename on the listing's link name: total (C15)
     ('*', 'self._path_namer'): ['ext:local'],           # PathNamer: file name from an already parsed URL (total, C15)
     ('*', 'self._url_rewriter'): ['ext:local'],         # URLRewriter: local string rewriting of an already parsed URL
     ('*', 'self._item_session.url_record.url_info'): ['ext:urlinfo'],
@@ -598,6 +599,8 @@ SAFE_SITES = {
         (['builtins.ValueError'], 'the URL comes from the URL table: it was parsed (URLInfo.parse) before it was added'),
     ('wpull.processor.ftp:FTPProcessorSession.process', 'noraise', 'Request#1'):
         (['builtins.ValueError'], 'the URL comes from the URL table: it was parsed (URLInfo.parse) before it was added'),
+    ('wpull.processor.ftp:FTPProcessorSession._make_symlink', 'index', "self._item_session.app_session.factory['PathNamer']"):
+        "the application factory always holds a 'PathNamer' when files are written (local)",
     ('wpull.processor.rule:FetchRule.consult_filters', 'index', "test_info['verdict']"): 'DemuxURLFilter.test_info always returns the verdict key (local)',
     ('wpull.processor.web:WebProcessorSession._add_referrer', 'noraise', 'URLInfo.parse#1'):
         (['builtins.ValueError'], 'parent_url comes from the URL table: it was parsed before it was added'),
